@@ -186,9 +186,11 @@ def c11(ctx, t0):
     res = []
     if want(ctx, 'linearizability'):
         res.append(ovl_stage(ctx, 'linearizability', 'TestVerifC11', T(ctx, 900, 5400)))
+    if want(ctx, 'backlog'):
+        res.append(ovl_stage(ctx, 'backlog', 'TestVerifC11Backlog', T(ctx, 300, 600)))
     floors = {'overlapping_same_user_write_pairs': (counters(res, 'overlapping_same_user_write_pairs'), 200),
               'histories_with_upgrade_after_later_update': (counters(res, 'histories_with_upgrade_after_later_update'), 1),
-              'upgrades_executed': (counters(res, 'upgrades_executed'), 20), 'crosstalk_requests': (counters(res, 'crosstalk_requests'), 1000)}
+              'upgrades_executed': (counters(res, 'upgrades_executed'), 20), 'crosstalk_requests': (counters(res, 'crosstalk_requests'), 1000), 'backlog_requests': (counters(res, 'backlog_requests'), 10)}
     return finish(ctx, 'exploration', res, COMMON_ASSUME + [
         'histories are recorded at the client boundary (call before invoking, return after the reply) with one monotonic clock',
         'porcupine v1.3.0 decides linearizability of each recorded history against the sequential model in go/ovl/c11_test.go; a checker timeout is inconclusive',
@@ -237,6 +239,8 @@ def c15(ctx, t0):
         res.append(ctx.run_child('concurrent-adds', [ctx.build_hx(), 'c15race'], T(ctx, 300, 1200)))
     if want(ctx, 'name-families'):
         res.append(ctx.run_child('name-families', [ctx.build_hx(), 'c15names'], T(ctx, 300, 1200)))
+    if want(ctx, 'agent-backlog'):
+        res.append(ovl_stage(ctx, 'agent-backlog', 'TestVerifC15Backlog', T(ctx, 300, 600)))
     if want(ctx, 'agent-readonly'):
         ctx.build_agent()
         r = ctx.run_child('agent-readonly', [ctx.build_hx(), 'c15agent'], T(ctx, 600, 1200))
